@@ -80,3 +80,26 @@ meta("C01",
      "builder of the post request called only from the fan-out, attachment only through create with the same Arc<Topic>.",
      ["mailbox FIFO order and races of Publish with create/delete (schedules)", "that a pull sent after Publish returned is processed after the post"],
      ["tokio mpsc is FIFO; JoinSet::join_next returns None only when all tasks finished"])
+
+meta("C03",
+     "Exclusive lease structure: the actor state is built once, moved into a single detached task, is not Clone and not stored or wrapped in "
+     "shared pointers, so `&mut self` serialises all handlers; pop and record are not separated by a Yield; each PulledMessage takes its id "
+     "from a read of next_ack_id which is overwritten with AckId::next (a strict increment) in the same iteration; the backlog is only fed "
+     "by posts and by values returned from tracker removals; all three consumer kinds use the one lease request.",
+     ["when a lease ends in wall-clock terms (C04)", "ack id wrap after 2^64 hand-outs"],
+     ["Rust's &mut exclusivity; single-threaded execution of one task"])
+
+meta("C06",
+     "Wake-up structure: every append to the backlog (post, nack, expiry) and every pop that may leave messages behind is followed on all "
+     "paths by a notify on the message signal, at most guarded by `backlog.is_empty()`; the notifier kind (notify_one stores a permit) and "
+     "the registration order of each consumer loop are compatible; after a wake-up each consumer loop pulls again.",
+     ["hand-on of wake-ups between several consumers under a given schedule, fairness"],
+     ["tokio Notify: notify_one stores one permit; a Notified future created before notify_waiters receives it"])
+
+meta("C08",
+     "Ordering structure: one writer of the per-topic counter, advanced per message before the id is built; the per-message step pushes "
+     "exactly one id (the one stored in the message) and returns exactly one Arc; it is driven by into_iter().map() over the request vector "
+     "with no reordering adapter; the backlog is only appended at the back and popped at the front; all posts are joined before the handler "
+     "returns and the actor handles one request at a time; the RPC response carries the actor's id vector through order-preserving calls.",
+     ["first-delivery order as observed by concurrent consumers (schedule property)"],
+     ["VecDeque / Vec / iterator adapter semantics as documented; mpsc FIFO"])
